@@ -11,6 +11,7 @@ import (
 	"fmt"
 	"os"
 	"runtime"
+	"sync"
 	"time"
 )
 
@@ -57,6 +58,7 @@ func VerifInt(name string) int       { return int(int64(verifNext(name))) }
 func VerifUint32(name string) uint32 { return uint32(verifNext(name)) }
 func VerifInt32(name string) int32   { return int32(verifNext(name)) }
 func VerifUint16(name string) uint16 { return uint16(verifNext(name)) }
+func VerifInt16(name string) int16   { return int16(verifNext(name)) }
 func VerifByte(name string) byte     { return byte(verifNext(name)) }
 func VerifBool(name string) bool     { return verifNext(name) != 0 }
 
@@ -169,3 +171,31 @@ func VerifClockAdvance(ms int64) { time.Sleep(time.Duration(ms) * time.Milliseco
 // VerifProvide hands the executor an environment object (e.g. the net.Listener that the stubbed
 // ListenConfig.Listen returns). Native builds use the real environment.
 func VerifProvide(key string, v any) {}
+
+// ---- concurrency mode (native bodies: plain goroutines and atomics) ----
+
+var verifWG sync.WaitGroup
+var verifMu sync.Mutex
+
+// VerifGo starts a harness thread.
+func VerifGo(name string, fn func()) {
+	verifWG.Add(1)
+	go func() { defer verifWG.Done(); fn() }()
+}
+
+// VerifAtQuiescence runs fn once every thread has finished.
+func VerifAtQuiescence(fn func()) {
+	verifWG.Wait()
+	VerifYield()
+	fn()
+}
+
+func VerifSharedLoad(p *int) int { verifMu.Lock(); defer verifMu.Unlock(); return *p }
+func VerifSharedStore(p *int, v int) { verifMu.Lock(); *p = v; verifMu.Unlock() }
+func VerifSharedAdd(p *int, d int) int { verifMu.Lock(); defer verifMu.Unlock(); *p += d; return *p }
+
+// VerifOverride replaces a function by a harness stub in the executor (no effect natively).
+func VerifOverride(name string, fn any) {}
+
+// VerifConcurrentMode reports whether the harness runs under the concurrency-mode analysis.
+func VerifConcurrentMode() bool { return false }
